@@ -50,7 +50,8 @@ func zzC15Ignore(n int) {
 			}
 		}
 		nd.Assert(got.StartPos == 5 && got.EndPos == 9, "@ignore positions passed through")
-		nd.Assert(nd.And(ignoreMatcher.Contains([]byte(text)), strings.Contains(text, "@ignore")), "@ignore: pre-filters pass accepted lines")
+		// (that the reader's pre-filters let every accepted line through is decided end to end by ZZC15bIgnoreLines
+		// and the C07 spelling harnesses, without naming the filter's implementation)
 	}
 }
 
